@@ -120,3 +120,157 @@ Theorem C16_tables_as_modelled :
   Generated.c16_hash_chain = ["request_entities"%string; "request_hostnames"%string].
 Proof. exact tables_as_modelled. Qed.
 Print Assumptions C16_tables_as_modelled.
+
+(* ------------------------------------------------------------------ the WHOLE answer of
+   Engine::url_cosmetic_resources: the generichide bit is computed by the network index
+   (check_generic_hide on the page as its own document request, with the enabled tags since
+   /repo b8d0ade) and equals the rule-by-rule reading; composed with C16's cache *)
+(* paste-ready pins for C16_Engine_* (whole answer of Engine::url_cosmetic_resources) *)
+From Adb Require Import Base BaseProofs C17_Model C17_Proofs C16_Model C16_Proofs C16_Engine_Model C16_Engine_Proofs.
+From Adb Require Hashing Net_Model Net_Proofs C05_Model C06_History_Model Wire_Model C08_Model C08_Query_Model.
+
+(* the rule-by-rule reading in C16's vocabulary = Net_Model's category vocabulary *)
+Theorem C16_spec_generichide_cats : forall matches L T,
+  spec_generichide matches L T = Net_Model.spec_generic_hide matches L T.
+Proof. exact spec_generichide_cats. Qed.
+Print Assumptions C16_spec_generichide_cats.
+
+(* check_generic_hide = rule by rule, for every enabled tag set *)
+Theorem C16_generichide_eq_spec : forall h matches pr L T,
+  Net_Proofs.id_inj L -> Net_Proofs.TG h matches pr L -> In 0 pr ->
+  Net_Model.generic_hide_hit matches pr (Net_Model.tags_with_set h (Net_Model.blocker_new h L) T)
+  = spec_generichide matches L T.
+Proof. exact generichide_eq_spec. Qed.
+Print Assumptions C16_generichide_eq_spec.
+
+(* a generichide rule carrying `$tag=t` counts iff t is enabled; an untagged one always *)
+Theorem C16_tagged_generichide_iff_enabled : forall matches L T f t,
+  Net_Model.rtag f = Some t ->
+  generichide_rule matches L T f = generichide_core matches L f && mem_str t T.
+Proof. exact tagged_generichide_iff_enabled. Qed.
+Print Assumptions C16_tagged_generichide_iff_enabled.
+
+Theorem C16_untagged_generichide_any_tags : forall matches L T f,
+  Net_Model.rtag f = None -> generichide_rule matches L T f = generichide_core matches L f.
+Proof. exact untagged_generichide_any_tags. Qed.
+Print Assumptions C16_untagged_generichide_any_tags.
+
+(* at the level of the lookup: f (tag t) the only candidate of the list => the answer is "t enabled" *)
+Theorem C16_tagged_generichide_lookup_iff_enabled : forall h matches pr L T f t,
+  Net_Proofs.id_inj L -> Net_Proofs.TG h matches pr L -> In 0 pr ->
+  In f L -> Net_Model.rtag f = Some t -> generichide_core matches L f = true ->
+  (forall g, In g L -> g <> f -> generichide_core matches L g = false) ->
+  Net_Model.generic_hide_hit matches pr (Net_Model.tags_with_set h (Net_Model.blocker_new h L) T)
+  = mem_str t T.
+Proof. exact tagged_generichide_lookup_iff_enabled. Qed.
+Print Assumptions C16_tagged_generichide_lookup_iff_enabled.
+
+(* @@||a.com^$generichide,tag=x on https://a.com/ : premises hold; fires with x enabled, not otherwise *)
+Theorem C16_tagged_generichide_example :
+  Net_Model.rtag ex_gh_tagged = Some (bs "x") /\
+  Net_Proofs.id_inj [ex_gh_tagged] /\
+  Net_Proofs.TG Hashing.seahash (ex_page_matches A_COM) (ex_page_probes A_COM) [ex_gh_tagged] /\
+  In 0 (ex_page_probes A_COM) /\
+  generichide_core (ex_page_matches A_COM) [ex_gh_tagged] ex_gh_tagged = true /\
+  Net_Model.generic_hide_hit (ex_page_matches A_COM) (ex_page_probes A_COM)
+    (Net_Model.tags_with_set Hashing.seahash (Net_Model.blocker_new Hashing.seahash [ex_gh_tagged]) [bs "x"]) = true /\
+  Net_Model.generic_hide_hit (ex_page_matches A_COM) (ex_page_probes A_COM)
+    (Net_Model.tags_with_set Hashing.seahash (Net_Model.blocker_new Hashing.seahash [ex_gh_tagged]) []) = false /\
+  ex_answer [ex_gh_tagged] [bs "x"] A_COM = mkRes [bs ".x"] [] [] [] true /\
+  ex_answer [ex_gh_tagged] [bs "y"; bs "x"] A_COM = mkRes [bs ".x"] [] [] [] true /\
+  ex_answer [ex_gh_tagged] [] A_COM = mkRes [bs "div[ad]"; bs ".x"] [] [] [] false /\
+  ex_answer [ex_gh_tagged] [bs "y"] A_COM = mkRes [bs "div[ad]"; bs ".x"] [] [] [] false.
+Proof. exact tagged_generichide_example. Qed.
+Print Assumptions C16_tagged_generichide_example.
+
+(* the whole answer of url_cosmetic_resources meets C16's specification with gh := spec_generichide *)
+Theorem C16_url_cosmetic_resources_spec : forall h uw matches pr L T crules host dom,
+  Net_Proofs.id_inj L -> Net_Proofs.TG h matches pr L -> In 0 pr ->
+  inj_on h (lookup_strings host dom ++ all_locations crules) ->
+  cosmetic_answer_spec uw crules host dom (spec_generichide matches L T)
+    (url_cosmetic_resources_model h matches pr true
+       (Net_Model.tags_with_set h (Net_Model.blocker_new h L) T) (build_cache h uw crules) host dom).
+Proof. exact url_cosmetic_resources_spec. Qed.
+Print Assumptions C16_url_cosmetic_resources_spec.
+
+Theorem C16_url_cosmetic_resources_unparsed : forall h matches pr b c host dom,
+  url_cosmetic_resources_model h matches pr false b c host dom = empty_resources.
+Proof. exact url_cosmetic_resources_unparsed. Qed.
+Print Assumptions C16_url_cosmetic_resources_unparsed.
+
+Theorem C16_generichide_on : forall h uw matches pr L T crules host dom,
+  Net_Proofs.id_inj L -> Net_Proofs.TG h matches pr L -> In 0 pr ->
+  inj_on h (lookup_strings host dom ++ all_locations crules) ->
+  (exists f, In f L /\ generichide_rule matches L T f = true) ->
+  let R := url_cosmetic_resources_model h matches pr true
+             (Net_Model.tags_with_set h (Net_Model.blocker_new h L) T) (build_cache h uw crules) host dom in
+  generichide R = true /\
+  (forall s, In s (hide_selectors R) <->
+             applies_s crules host dom THide s /\ ~ applies_s crules host dom TUnhide s) /\
+  (forall s, ~ applies_s crules host dom THide s -> ~ In s (hide_selectors R)).
+Proof. exact generichide_on. Qed.
+Print Assumptions C16_generichide_on.
+
+Theorem C16_generichide_off : forall h uw matches pr L T crules host dom,
+  Net_Proofs.id_inj L -> Net_Proofs.TG h matches pr L -> In 0 pr ->
+  inj_on h (lookup_strings host dom ++ all_locations crules) ->
+  (forall f, In f L -> generichide_rule matches L T f = false) ->
+  let R := url_cosmetic_resources_model h matches pr true
+             (Net_Model.tags_with_set h (Net_Model.blocker_new h L) T) (build_cache h uw crules) host dom in
+  generichide R = false /\
+  (forall s, In s (hide_selectors R) <->
+     (applies_s crules host dom THide s /\ ~ applies_s crules host dom TUnhide s) \/
+     (In s (generic_selectors crules) /\ key_from_selector uw s = None /\ ~ applies_s crules host dom TUnhide s)) /\
+  (forall s, In s (generic_selectors crules) -> key_from_selector uw s = None ->
+             ~ applies_s crules host dom TUnhide s -> In s (hide_selectors R)).
+Proof. exact generichide_off. Qed.
+Print Assumptions C16_generichide_off.
+
+(* after any history of add_filter / use_tags / enable_tags / disable_tags / optimize *)
+Theorem C16_generichide_history : forall h om pm pr ops,
+  In 0 pr -> Net_Proofs.id_inj (C06_History_Model.loaded ops) ->
+  Net_Proofs.TG h (C05_Model.rmatch om pm) pr (C06_History_Model.loaded ops) ->
+  (forall g, In g (C06_History_Model.loaded ops) -> C05_Model.wfp g = true) ->
+  Net_Model.generic_hide_hit (C05_Model.rmatch om pm) pr (C06_History_Model.hrun h ops)
+  = spec_generichide (C05_Model.rmatch om pm) (C06_History_Model.loaded ops) (C06_History_Model.tagset ops).
+Proof. exact generichide_history. Qed.
+Print Assumptions C16_generichide_history.
+
+Theorem C16_url_cosmetic_resources_history : forall h uw om pm pr ops crules host dom,
+  In 0 pr -> Net_Proofs.id_inj (C06_History_Model.loaded ops) ->
+  Net_Proofs.TG h (C05_Model.rmatch om pm) pr (C06_History_Model.loaded ops) ->
+  (forall g, In g (C06_History_Model.loaded ops) -> C05_Model.wfp g = true) ->
+  inj_on h (lookup_strings host dom ++ all_locations crules) ->
+  cosmetic_answer_spec uw crules host dom
+    (spec_generichide (C05_Model.rmatch om pm) (C06_History_Model.loaded ops) (C06_History_Model.tagset ops))
+    (url_cosmetic_resources_model h (C05_Model.rmatch om pm) pr true
+       (C06_History_Model.hrun h ops) (build_cache h uw crules) host dom).
+Proof. exact url_cosmetic_resources_history. Qed.
+Print Assumptions C16_url_cosmetic_resources_history.
+
+(* add_filter refuses $badfilter rules: after a history no cancellation clause is needed *)
+Theorem C16_spec_generichide_history : forall matches ops T,
+  spec_generichide matches (C06_History_Model.loaded ops) T =
+  existsb (fun f => Net_Model.is_generic_hide f && negb (Net_Model.is_csp f) && negb (Net_Model.is_removeparam f)
+                    && Net_Model.tag_ok T f && matches f) (C06_History_Model.loaded ops).
+Proof. exact spec_generichide_history. Qed.
+Print Assumptions C16_spec_generichide_history.
+
+(* across serialize -> load into any engine -> use_tags: same whole answer (same cosmetic cache) *)
+Theorem C16_url_cosmetic_resources_agree : forall h matches pr parsed a b c host dom,
+  C08_Query_Model.net_agree a b ->
+  url_cosmetic_resources_model h matches pr parsed a c host dom =
+  url_cosmetic_resources_model h matches pr parsed b c host dom.
+Proof. exact url_cosmetic_resources_agree. Qed.
+Print Assumptions C16_url_cosmetic_resources_agree.
+
+Theorem C16_url_cosmetic_resources_roundtrip : forall as_css build_list l e tags,
+  C08_Model.rules_ok (Wire_Model.e_blocker e) -> C08_Query_Model.keys_distinct (Wire_Model.e_blocker e) ->
+  let w := Wire_Model.to_wire as_css (Wire_Model.e_blocker e) (Wire_Model.e_cosmetic e) in
+  let e' := C08_Model.engine_use_tags build_list tags (Wire_Model.install build_list l w) in
+  let e0 := C08_Model.engine_use_tags build_list tags e in
+  forall h matches pr parsed c host dom,
+  url_cosmetic_resources_model h matches pr parsed (C08_Query_Model.net_blocker (Wire_Model.e_blocker e')) c host dom =
+  url_cosmetic_resources_model h matches pr parsed (C08_Query_Model.net_blocker (Wire_Model.e_blocker e0)) c host dom.
+Proof. exact url_cosmetic_resources_roundtrip. Qed.
+Print Assumptions C16_url_cosmetic_resources_roundtrip.
